@@ -115,7 +115,11 @@ def solve(
             # TODO figure out how to handle this
             continue
         elif isinstance(bound, IsOneOf):
-            options = bound.constraints
+            if options is None:
+                options = bound.constraints
+            else:
+                # We have to satisfy all of the constraint lists.
+                options = [option for option in options if option in bound.constraints]
         else:
             assert False, f"unrecognized bound {bound}"
 
